@@ -12,7 +12,7 @@ from common import Check, Rng, Scratch, BuildError, build_flex, run, parallel_ma
 PROP = "C02"
 
 TABLES = ["-C", "-Ce", "-Cm", "-Cem", "-Cf", "-CF", "-Cfe", "-CFe", "-Ca", "-Cae", "-Cam", "-Caem", "-Caf", "-CaF", "-Cafe", "-CaFe"]
-BACKENDS = ["nr", "r", "c99", "cxx"]
+BACKENDS = ["nr", "r", "c99", "cxx", "go"]
 
 
 def valid_combo(tbl, mode, backend, array):
@@ -55,7 +55,7 @@ def combos(rng, n):
 
 
 def build_cases(rng, tier):
-    nsets = 20 if tier == "quick" else 150
+    nsets = 20 if tier == "quick" else 30
     ncomb = 24 if tier == "quick" else 10 ** 6
     cases = []
     for i in range(nsets):
